@@ -85,7 +85,7 @@ ASSUMPTIONS = [
     "documents): NumberDuplicateStrategy builds set(range(min, max+2)), so huge indices only cost memory; at most 40 "
     "entries, two levels deep",
 ]
-BUDGET_S = {'quick': 120, 'thorough': 1500}
+BUDGET_S = {'quick': 300, 'thorough': 1800}
 
 STRATS = ('default', 'keep', 'number')
 CHAINS = [list(p) for r in (1, 2, 3) for p in itertools.permutations(STRATS, r)]   # 15 ordered sub-lists
@@ -638,13 +638,24 @@ MANIFEST_ENTRY = {
                   'through the real TransferManager with generated start offsets and executor delays; at no sampled instant '
                   'two active downloads share a local path, nothing is created outside the download directory; the '
                   'download directory setting is optionally changed (absolute / relative) between the downloads and every '
-                  'chosen path is judged against the directory configured at the moment it is chosen. '
+                  'chosen path is judged against the directory configured at the moment it is chosen; optionally the '
+                  'download that holds the path lock (path chosen, placeholder file not created yet) or one that waits '
+                  'for it is aborted / paused / removed at a generated offset (virtual ms + loop iterations) after the '
+                  'k-th path calculation and queued again later, while further equally named downloads arrive; a '
+                  'download whose abort / pause / removal is in progress does not count as active; additionally no '
+                  'download may be left INITIALIZING / DOWNLOADING without a task. '
                   'Pure part only checks the path chosen by the naming layer (what TransferManager._prepare_download_path '
                   'joins and opens); regular-name and freshness predicates are asserted only for the chains whose '
                   'strategies promise them (see assumptions). POSIX file system; no symlinks, no NUL in paths.',
 }
 
 KNOWN_REPLAYS = {
+    # a download paused between 'path chosen' and 'placeholder created' keeps the path; the next equally named
+    # download is given the same path and the resumed one appends to that file
+    'C09/unreserved-path-kept-after-pause:completed-downloads-share-local-path': {
+        't': 'conc', 'name': 'song.mp3', 'n': 3, 'download_at': [0, 0, 0], 'start_at': [0, 0, 0],
+        'sizes': [9000, 9000, 9000], 'exec_delay': 0.0, 'pre': 'none', 'limited': False, 'same_dir': True,
+        'act': {'kind': 'pause', 'who': 0, 'after_call': 0, 'delay_ms': 0, 'iters': 0, 'resume_ms': 100}},
     'C09/escape:directory:dotdot-component': {
         't': 'pure', 'parts': [['', '@@abc'], ['\\', '..'], ['\\', 'evil.txt']], 'tail': '', 'chain': ['default', 'keep'],
         'pre': [], 'mk': True},
